@@ -150,6 +150,7 @@ type Sim struct {
 	Stats   map[string]int
 
 	quiesceWaiters []*req
+	running        atomic.Bool // the scheduler loop has started
 }
 
 var curMu sync.Mutex
@@ -302,6 +303,7 @@ type choice struct {
 func (s *Sim) Run() {
 	raceDisable()
 	defer raceEnable()
+	s.running.Store(true)
 
 	for {
 		synctest.Wait()
